@@ -4,3 +4,5 @@ import Proofs.Limits
 import Proofs.SeqInv
 import Proofs.Layout
 import Proofs.Geometry
+import Proofs.Atomic
+import Proofs.Protocol
